@@ -338,7 +338,20 @@ impl Script {
     }
 
     pub fn remove_codeseparators(&mut self) {
-        self.0 = self.0.clone().into_iter().filter(|x| *x != ScriptBit::OpCode(OpCodes::OP_CODESEPARATOR)).collect();
+        fn strip(bits: &[ScriptBit]) -> Vec<ScriptBit> {
+            bits.iter()
+                .filter(|x| **x != ScriptBit::OpCode(OpCodes::OP_CODESEPARATOR))
+                .map(|x| match x {
+                    ScriptBit::If { code, pass, fail } => ScriptBit::If {
+                        code: *code,
+                        pass: strip(pass),
+                        fail: fail.as_ref().map(|f| strip(f)),
+                    },
+                    o => o.clone(),
+                })
+                .collect()
+        }
+        self.0 = strip(&self.0);
     }
 
     pub fn from_chunks(chunks: Vec<Vec<u8>>) -> Result<Script, BSVErrors> {
